@@ -94,7 +94,11 @@ class P:
         for k, v in ctx.items():
             ops.append("CV:1:%s:%s" % (hx(k), speceval.to_proto_value(v[1])) if v[0] == "var" else "CF:1:%s:%d" % (hx(k), v[1]))
         nset = len(ops)
-        ops += ["EXEC:1:" + hx(src), "CD:1", "EXEC:1:" + hx("q = 2; q + 1"), "EXEC:2:" + hx("7 * 6"), "@other/EXEC:1:" + hx("q")]
+        # follow-ups: the same context, another context, another thread - and every registry (infix, prefix, postfix,
+        # function: look-ups of built-ins and a fresh registration after the fault), none of whose locks may be left poisoned
+        ops += ["EXEC:1:" + hx(src), "CD:1", "EXEC:1:" + hx("q = 2; q + 1"), "EXEC:2:" + hx("7 * 6"), "@other/EXEC:1:" + hx("q"),
+                "EXEC:2:" + hx("sum(1, 2) - - 1 ++"), "H:77:rn(0,b,0)", "REGF:%s:77" % hx("zzf"), "REGP:%s:77" % hx("zzp"), "REGS:%s:77" % hx("zzs"),
+                "REGI:%s:6e:0:0:77" % hx("zzi"), "@other/EXEC:2:" + hx("zzf() + (zzp 1) + (1 zzs) + (1 zzi 2) + max(1, 2)")]
         return (" ".join(ops), (stmts, ctx, handlers, tag, src, nset))
 
     def show(self, case):
@@ -129,8 +133,11 @@ class P:
     def oracle(self, case, impl):
         stmts, ctx, handlers, tag, src, nset = case.meta
         outs = impl.split(" ")
-        if len(outs) < nset + 5: return "violates", "battery incomplete: " + " ".join(o[:10] for o in outs[nset:])
+        if len(outs) < nset + 12: return "violates", "battery incomplete: " + " ".join(o[:10] for o in outs[nset:])
         main, dump, f1, f2, f3 = outs[nset:nset + 5]
+        f4, f5 = outs[nset + 5], outs[nset + 11]
+        if any(o.startswith(("PANIC", "DEADLOCK", "ABORT")) for o in outs[nset + 5:nset + 12]):
+            return "violates", "after the %s a registry is unusable: %s" % (tag[0], " ".join(o[:12] for o in outs[nset + 5:nset + 12]))
         cls, val, fctx, log = run2(stmts, ctx, handlers)
         if cls == "SKIP":
             self.skipped += 1; return "ok", ""
@@ -147,7 +154,8 @@ class P:
             if v[0] == "var":
                 if hx(k) not in have or have[hx(k)].startswith("F") or not evalspec.seq(evalspec.from_proto(values.parse_value(have[hx(k)])), v[1]):
                     return "violates", "after the fault, %s is %s; as-if-stopped semantics give %s" % (k, have.get(hx(k)), v[1])
-        for name, o, wantv in (("same context", f1, "n(0,3,0)"), ("another context", f2, "n(0,2a,0)"), ("another thread", f3, "n(0,2,0)")):
+        for name, o, wantv in (("same context", f1, "n(0,3,0)"), ("another context", f2, "n(0,2a,0)"), ("another thread", f3, "n(0,2,0)"),
+                               ("the built-in registries", f4, "n(0,5,0)"), ("fresh registrations in every registry", f5, "n(0,2e,0)")):
             dd = values.split_exec(o)
             if dd["cls"] != "OK" or dd["value"] != wantv:
                 return "violates", "follow-up on %s after the %s returned %s" % (name, tag[0], o[:50])
